@@ -1,6 +1,6 @@
 import FlytModel.Generated.IR
 import FlytModel.Expected.IR
-/-! The translation of `CustomNode_ExecFallback` from the CURRENT source is, term for term, the IR the refinement theorems are about. -/
+/-! The translation of `CustomNode_ExecFallback` from the CURRENT source is, term for term, the expected IR. -/
 namespace Flyt.Tie
 theorem CustomNode_ExecFallback : Flyt.Generated.IR.CustomNode_ExecFallback = Flyt.Expected.IR.CustomNode_ExecFallback := rfl
 end Flyt.Tie
